@@ -2,7 +2,8 @@
 EXTENDS DnsRetry
 Init == \E ns \in 1..2, T \in {<<1>>, <<1, 2>>} : InitWith([ns |-> ns, T |-> T, idmax |-> 2])
 Spec == Init /\ [][Next]_vars
-Bound == /\ Len(hs) <= 3 /\ Len(jobs) <= 2 /\ Len(conns) <= 2 /\ nrep <= 3 /\ now <= 14 /\ Len(tq) <= 3
-         /\ TLCGet("level") <= 11
-View == <<cfg, now, hs, jobs, att, timers, rr, conns, up, pend, tq, nrep>>
+Bound == /\ Len(hs) <= 3 /\ Len(jobs) <= 2 /\ Len(conns) <= 2 /\ now <= 14 /\ Len(tq) <= 3
+         /\ TLCGet("level") <= 8
+BoundDeep == Len(hs) <= 2 /\ Len(jobs) <= 1 /\ Len(conns) <= 1 /\ Len(tq) <= 1 /\ now <= 20 /\ TLCGet("level") <= 14
+View == <<cfg, now, hs, jobs, att, timers, rr, conns, up, pend, tq>>
 =============================================================================
